@@ -947,6 +947,44 @@ theorem extends_pairs_with_end_of_stream (c : List Entry) (q : List Entry) (p : 
   simp only [List.drop_zero] at hc
   simp [endOfStream, hp, hc]
 
+/-- `extends_anywhere_restores_callers_captures`: the `LoadBlocks` / parent-switch pair as part of the
+balance of a whole stream, crossed pairing allowed.  For ANY stream whose capture events never reach
+below its entry, contain one `LoadBlocks` — at the top level, inside set / filter blocks, crossed with
+them in any way — and end one entry above the entry depth (`bal false 0 es = some (true, 1)`: what
+the certificate of the stream gives with `LoadBlocks` counted as an opening instruction): the run
+reaches the end of the stream with exactly ONE entry on top of the caller's capture stack `c`, the
+unconditional pop of the end-of-stream logic removes exactly that entry — the discard entry or, on the
+crossed path, the buffer of the block around the `extends` — and the parent's instructions start on
+exactly the caller's capture stack: their text reaches the output the template was given.  (With a pop
+that looks at what is on top this fails: see `end_of_stream_pops_unconditionally`.) -/
+theorem extends_anywhere_restores_callers_captures (c q : List Entry) (es : List Ev)
+    (h : bal false 0 es = some (true, 1)) :
+    ∃ s p e s', run { caps := c, parent := none, popped := q } es = some s ∧
+      endOfStream s = some (p, e, s') ∧ s'.caps = c ∧ s'.parent = none := by
+  obtain ⟨s, top, hr, hc, hl, hp⟩ := bal_run c es false 0 { caps := c, parent := none, popped := q } [] true 1
+    rfl rfl rfl h
+  match top, hl with
+  | [e], _ =>
+    cases hpar : s.parent with
+    | none => simp [hpar] at hp
+    | some p =>
+      refine ⟨s, p, e, { s with caps := c, parent := none }, hr, ?_, rfl, rfl⟩
+      simp only [List.cons_append, List.nil_append] at hc
+      simp [endOfStream, hpar, hc]
+
+/-- the crossed path `{% set x %}a{% extends … %}b{% endset %}` and a nested one satisfy the hypothesis -/
+example : bal false 0 [.beginCapture 0, .loadBlocks 7, .endCapture] = some (true, 1) ∧
+    bal false 0 [.beginCapture 0, .beginCapture 1, .loadBlocks 7, .endCapture, .beginCapture 2, .endCapture, .endCapture]
+      = some (true, 1) := by decide
+
+/-- `end_of_stream_pops_unconditionally`: the one `end_capture` of the end-of-stream logic, with the
+`if` conditions it is under, regenerated from `vm/mod.rs` on every run: none — whenever a parent was
+loaded one entry is popped, whatever is on top, as `MJ.Extends.endOfStream` has it (a pop that depends
+on what the top entry is leaves an orphaned capture behind on the path of
+`extends_inside_capture_mispairs`, which swallows the parent's output) -/
+theorem end_of_stream_pops_unconditionally :
+    MJ.Gen.c05EndOfStreamPop = ("out.end_capture(AutoEscape::None)", []) := by decide
+
 /-- a second `extends` in the same evaluation fails instead of opening a second discard capture -/
 theorem second_extends_fails (s : St) (p q : Nat) (h : s.parent = some p) : ev s (.loadBlocks q) = none := by
   simp [ev, h]
